@@ -74,6 +74,17 @@ POOLS = {
         ("Point", [2.265, 1000]),
         ("Point", [2.25, 1150]),                # frequency gap 150 in (100, 200]
     ],
+    # a time-only geometry has affinity exactly 1 with every box spanning the same time range, whatever its band; pairing
+    # such 1.0 entries greedily is not optimal here: optimum = I-D (0.9) + B90-B100 (0.9) = 1.8, greedy = 1.0 + 0.048.
+    # The two multipoints have identical bounds but share no point (affinity 0): bounds must not stand in for shapes.
+    "mix6": [
+        ("TimeInterval", [0, 1]),
+        ("BoundingBox", [0, 0, 1, 90]),
+        ("BoundingBox", [0, 0, 1, 100]),
+        ("BoundingBox", [0, 80, 0.875, 200]),
+        ("MultiPoint", [[3, 1000], [5, 3000]]),
+        ("MultiPoint", [[3, 3000], [5, 1000]]),
+    ],
     # the remaining geometry types (+ one box for cross-type pairs)
     "x7": [
         ("Point", [1, 1000]),
@@ -90,8 +101,8 @@ BUFFERS = [None, [0.5, 1000.0]]
 
 # (pool, maximum list length, number of shards per buffer setting)
 PLAN = {
-    "quick": [("q6", 3, 32), ("thin6", 2, 2)],
-    "thorough": [("q6", 3, 8), ("t5", 4, 40), ("x7", 3, 16), ("thin6", 3, 8)],
+    "quick": [("q6", 3, 32), ("thin6", 2, 2), ("mix6", 2, 2)],
+    "thorough": [("q6", 3, 8), ("t5", 4, 40), ("x7", 3, 16), ("thin6", 3, 8), ("mix6", 3, 8)],
 }
 
 
